@@ -751,14 +751,16 @@ fn abort_after_big_case(prop: &str, idx: u64, root: &Path) -> CaseRec {
 /// a test case that runs into a limit is aborted: once scrut has exited nothing of it may go on running, and so
 /// nothing may bring a directory back that scrut created and removed (the shell of the stateful executor
 /// persists its state from an EXIT trap, `mkdir -p` included).
-/// idx: work-directory (2) x kind of limit (4) x slow test case first / second (2).
+/// idx: work-directory (2) x kind of limit (5) x slow test case first / second (2).
+/// Kind 4 is the per-test limit on a command that closes its output streams first (reading its output ends at once;
+/// the shell must be stopped all the same when the limit is reached).
 /// Kind 3 is no limit at all but a shell that hangs up on its STDIN while scrut still feeds it an expression larger
 /// than the pipe buffer: the run ends at once (open finding C14:spurious-timeout-…), and the shell that is still
 /// sleeping must not be left behind either.
 fn timeout_orphan_case(prop: &str, idx: u64, root: &Path) -> CaseRec {
     let workdir = idx % 2 == 1;
-    let limit = idx / 2 % 4;
-    let second = idx / 8 % 2 == 1;
+    let limit = idx / 2 % 5;
+    let second = idx / 10 % 2 == 1;
     let dir = root.join(format!("orphan-{idx}"));
     let _ = std::fs::remove_dir_all(&dir);
     let tmp = dir.join("tmp");
@@ -772,7 +774,8 @@ fn timeout_orphan_case(prop: &str, idx: u64, root: &Path) -> CaseRec {
         0 => (dir.join("doc.md"), format!("{head}# slow\n\n```scrut {{timeout: 300ms}}\n$ {slow}\nok\n```\n"), vec![]),
         1 => (dir.join("doc.md"), format!("---\ntotal_timeout: 300ms\n---\n\n{head}# slow\n\n```scrut\n$ {slow}\nok\n```\n"), vec![]),
         2 => (dir.join("doc.md"), format!("{head}# slow\n\n```scrut\n$ {slow}\nok\n```\n"), vec!["--timeout-seconds", "0"]),
-        _ => (dir.join("doc.md"), format!("{head}# slow\n\n```scrut\n$ exec 0</dev/null; {slow}\n{}ok\n```\n", format!("> # {}\n", "x".repeat(100)).repeat(3000)), vec![]),
+        3 => (dir.join("doc.md"), format!("{head}# slow\n\n```scrut\n$ exec 0</dev/null; {slow}\n{}ok\n```\n", format!("> # {}\n", "x".repeat(100)).repeat(3000)), vec![]),
+        _ => (dir.join("doc.md"), format!("{head}# slow\n\n```scrut {{timeout: 300ms}}\n$ exec 1>&- 2>&-; {slow}\nok\n```\n"), vec![]),
     };
     // `--timeout-seconds 0` is "no limit": that variant is the control (the command ends by itself, the marker appears)
     let control = limit == 2;
@@ -874,7 +877,7 @@ pub fn run(ctx: &Ctx, prop: &str) {
     let r2 = root.clone();
     ctx.run_stream("e2e-abort-after-big", if ctx.thorough { 16 } else { 4 }, false, |idx| Some(abort_after_big_case(prop, idx, &r2)));
     let r2 = root.clone();
-    ctx.run_stream("e2e-timeout-orphan-exhaustive", 16, true, |idx| Some(timeout_orphan_case(prop, idx, &r2)));
+    ctx.run_stream("e2e-timeout-orphan-exhaustive", 20, true, |idx| Some(timeout_orphan_case(prop, idx, &r2)));
     let r2 = root.clone();
     ctx.run_stream("e2e-odd-tmpdir-exhaustive", 12, true, |idx| Some(odd_tmpdir_case(prop, idx, &r2)));
     // 3. namer: exhaustive over request sequences up to length 4 over {a, a-1, b} x existing subsets of {a, a-1, a-2, b}
